@@ -153,6 +153,8 @@ type Client struct {
 	AK, SK string
 	Region string
 	Log    Logger
+	// DefaultWatchdog replaces the 120 s per-request watchdog when a request does not set its own.
+	DefaultWatchdog time.Duration
 
 	mu   sync.Mutex
 	idle []*conn
@@ -169,7 +171,7 @@ func New(addr, ak, sk string) *Client {
 
 // With returns a client for the same gateway with other credentials.
 func (c *Client) With(ak, sk string) *Client {
-	return &Client{Addr: c.Addr, AK: ak, SK: sk, Region: c.Region, Log: c.Log}
+	return &Client{Addr: c.Addr, AK: ak, SK: sk, Region: c.Region, Log: c.Log, DefaultWatchdog: c.DefaultWatchdog}
 }
 
 // At returns a client with the same credentials for another gateway address.
@@ -530,6 +532,9 @@ func (c *Client) Send(b *Built, r *Req) *Resp {
 		c.Log.LogReq(fmt.Sprintf("%s body=%d %q", strings.SplitN(string(head), "\r\n", 2)[0], bl, headSummary(b.Header)))
 	}
 	wd := r.Watchdog
+	if wd == 0 {
+		wd = c.DefaultWatchdog
+	}
 	if wd == 0 {
 		wd = defaultWatchdog
 	}
